@@ -123,3 +123,44 @@ def o17_3(tier):
         return h
     return [("two-interfaces,raw", mk([2, 3], False, None, 1)), ("two-interfaces,average", mk([2, 3], False, "average", 1)),
             ("repeated-interface,raw", mk([2, 3], True, None, 1)), ("brighter-image-x3,raw", mk([3], False, None, 3))]
+
+
+@obligation("O17.4", ["C17"], [M + ":get_interpolation"],
+            "get_interpolation: the polyline is taken in image coordinates (x*rescale_x+offset_x, y*rescale_y+offset_y); each segment is handed to the band "
+            "walk between the ceil-ed end points with the given number of layers; the reported length is the Euclidean length of that polyline", tier="Pn")
+def o17_4(tier):
+    def mk(n):
+        def h(ctx):
+            my = ctx.module(M)
+            pts = [(ctx.real(f"x{i}"), ctx.real(f"y{i}")) for i in range(n)]
+            rx, ry, ox, oy = ctx.real("rx"), ctx.real("ry"), ctx.real("ox"), ctx.real("oy")
+            vs = mk_vertices(ctx, pts)
+            mk_small_edges(ctx, vs)
+            be = mk_bigedge(ctx, 0, vs)
+            calls = []
+
+            def walk(it, a, k):
+                calls.append((list(it.iterate(a[0])), list(it.iterate(a[1])), a[2]))
+                from fvc.interp import ISet
+                return ISet([])
+            ctx.stub("forsys.myosin:walk_two_vertices", walk, "band walk between two pixel positions (bounded stand-in B17 only)")
+            if ctx.mode != "sym":
+                return
+            res = ctx.list_of(ctx.call(ctx.get(my, "get_interpolation"), be, 2, rescale=[rx, ry], offset=[ox, oy]))
+            length = res[1]
+            img = [(p[0] * rx + ox, p[1] * ry + oy) for p in pts]
+            from fvc import sym
+            import z3
+            ceil = lambda t: sym.concretize(-z3.ToInt(-sym.to_real(t)))
+            ctx.ensure(len(calls) == n - 1, "one band walk per segment")
+            for i, (a, b, layers) in enumerate(calls):
+                ctx.ensure(ctx.And(ctx.eq(a[0], ceil(img[i][0])), ctx.eq(a[1], ceil(img[i][1])), ctx.eq(b[0], ceil(img[i + 1][0])), ctx.eq(b[1], ceil(img[i + 1][1]))),
+                           f"segment {i}: walked between the ceil-ed image positions of its two ends")
+                ctx.ensure(layers == 2, f"segment {i}: with the requested number of layers")
+            spec = 0
+            for i in range(n - 1):
+                dx, dy = img[i][0] - img[i + 1][0], img[i][1] - img[i + 1][1]
+                spec = spec + ctx.sqrt(dx * dx + dy * dy)
+            ctx.ensure(ctx.close(length, spec), "length = Euclidean length of the polyline in image coordinates")
+        return h
+    return [(f"n={n}", mk(n)) for n in (2, 3)]
